@@ -221,3 +221,66 @@ def recursion_rule(F, R, rule, what, seen_ids, crates, table, cg=None, name_filt
             R.violation(rule, "cycle:" + key, "recursion cycle %s is reachable and not audited as bounded: if its depth follows the input length the "
                         "process aborts with a stack overflow" % key, loc)
     return k
+
+
+PASS_THROUGH = {"branch", "unwrap", "expect", "clone", "into", "from", "try_into", "try_from", "get", "new", "new_unchecked", "ok", "copied", "cloned",
+                "unwrap_or", "unwrap_or_default", "checked_add", "checked_sub", "saturating_add", "saturating_sub", "wrapping_add", "wrapping_sub",
+                "min", "max", "from_residual", "from_output", "map_err", "ok_or", "unwrap_unchecked", "deref", "borrow", "as_ref"}
+
+
+def producers(fn, D, o, depth=12, seen=None):
+    """Immediate producers of the value read by operand `o`, over every definition of every local on the way: copies, casts, arithmetic,
+    references, tuple/checked-arithmetic pairs and value-preserving std calls (PASS_THROUGH) are looked through; anything else stops the
+    walk and is returned. Items: ("const", None, None) | ("arg", name, None) | ("call", callee, type of its first argument) |
+    ("len", None, None) | ("?", what, None). Projections are ignored (the union over the fields of a local is taken)."""
+    from ..dataflow import op_place
+    seen = seen if seen is not None else set()
+    p = op_place(o)
+    if p is None:
+        return {("const", None, None)}
+    l = p["l"]
+    if depth == 0:
+        return {("?", "depth", None)}
+    if l in seen:
+        return set()
+    seen = seen | {l}
+    out = set()
+    dl = D.defs.get(l, [])
+    if 1 <= l <= fn.argc:
+        out.add(("arg", fn.local_name(l) or str(l), None))
+    elif not dl:
+        out.add(("?", "undefined _%d" % l, None))
+    for d in dl:
+        if d[0] == "call":
+            t = d[3]
+            cn = strip_generics(callee_name(t) or "")
+            last = cn.split("::")[-1]
+            if last in PASS_THROUGH and t.get("args"):
+                for a in t["args"]:
+                    out |= producers(fn, D, a, depth - 1, seen)
+            else:
+                a0 = op_place(t["args"][0]) if t.get("args") else None
+                out.add(("call", cn, fn.local_ty(a0["l"]) if a0 is not None else None))
+        else:
+            st = d[3]
+            if st["k"] != "=":
+                out.add(("?", st["k"], None))
+                continue
+            rv = st["rv"]
+            k = rv["k"]
+            if k in ("use", "cast"):
+                out |= producers(fn, D, rv["op"], depth - 1, seen)
+            elif k == "bin":
+                out |= producers(fn, D, rv["a"], depth - 1, seen) | producers(fn, D, rv["b"], depth - 1, seen)
+            elif k == "un":
+                out |= producers(fn, D, rv["a"], depth - 1, seen)
+            elif k in ("ref", "rawptr"):
+                out |= producers(fn, D, {"cp": {"l": rv["pl"]["l"], "p": []}}, depth - 1, seen)
+            elif k == "agg":
+                for a in rv["ops"]:
+                    out |= producers(fn, D, a, depth - 1, seen)
+            elif k in ("len", "ptrmeta"):
+                out.add(("len", None, None))
+            else:
+                out.add(("?", k, None))
+    return out
